@@ -19,6 +19,7 @@ import (
 	"os"
 	"runtime"
 	"strconv"
+	"strings"
 
 	"github.com/smart-core-os/sc-golang/verifharness/lib"
 )
@@ -55,15 +56,22 @@ func main() {
 		os.Exit(replay(f))
 	}
 	res := lib.NewResult("C07", f)
-	runCore(f, res)
-	runNested(f, res)
-	runEvents(f, res)
-	runRim(f, res)
-	runRim2(f, res)
-	runRim3(f, res)
-	runRim4(f, res)
-	runRim5(f, res)
-	runModels(f, res)
+	// C07_ONLY=core,models,… restricts the run to the named families (development only)
+	only := map[string]bool{}
+	for _, n := range strings.Split(os.Getenv("C07_ONLY"), ",") {
+		if n != "" {
+			only[n] = true
+		}
+	}
+	for _, fam := range []struct {
+		name string
+		run  func(lib.Flags, *lib.Result)
+	}{{"core", runCore}, {"nested", runNested}, {"events", runEvents}, {"rim", runRim}, {"rim2", runRim2}, {"rim3", runRim3},
+		{"rim4", runRim4}, {"rim5", runRim5}, {"rim6", runRim6}, {"models", runModels}} {
+		if len(only) == 0 || only[fam.name] {
+			fam.run(f, res)
+		}
+	}
 	if err := res.Write(f.Out); err != nil {
 		lib.Fatal(err)
 	}
@@ -120,6 +128,22 @@ func replay(f lib.Flags) int {
 		}
 		runValueEventSeq(es, nil, m, nil)
 		fmt.Printf("replay core-events (Value) seq=%d seed=%d steps=%d\n", es.Seq, es.Seed, es.Steps)
+	case "hail":
+		var c hailCase
+		if err := json.Unmarshal(b, &c); err != nil {
+			lib.Fatal(err)
+		}
+		ans, changes := runHailCase(c)
+		hailViolations(c, changes, m)
+		fmt.Printf("replay hail %v -> %s\n", c, ans)
+	case "incl":
+		var c inclCase
+		if err := json.Unmarshal(b, &c); err != nil {
+			lib.Fatal(err)
+		}
+		ans := runInclCase(c)
+		inclViolation(c, ans, m)
+		fmt.Printf("replay incl %v -> %s\n", c, ans)
 	case "positions":
 		var c positionsCase
 		if err := json.Unmarshal(b, &c); err != nil {
